@@ -44,7 +44,7 @@ def cfgs_requests(tier, rng):
     return out
 
 P_REQ = BASE.with_(n_tab=(1, 8), w_ops=dict(update=8, react=4, query=0, change=8, immChange=8, changeWith=3, immChangeWith=3, exit_enter=1,
-                                            destroy_construct=1, replayTransition=0),
+                                            destroy_construct=1, replayTransition=2),
                    w_meth=dict(guard=6, phase=4, life=0, plancb=0, query=0), w_act=dict(change=8, changeWith=2, cancel=5), p_same_dest=0.25)
 
 P_LIMIT = P_REQ.with_(n_tab=(2, 6), p_cond=0.3, w_meth=dict(guard=8, phase=1), w_act=dict(change=10, changeWith=0, cancel=3))
@@ -59,6 +59,21 @@ def cfgs_limit(tier, rng):
     out.append(cfgmod.make(n=3, head=0, manual=1, limit=3, cap=1, plans=1, payload=2, history=1, log="off", order=1))
     out.append(cfgmod.make(n=2, head=1, manual=0, limit=4, cap=2, plans=1, history=0, log="off", order=1))
     out.append(cfgmod.make(n=3, head=1, manual=1, limit=2, cap=2, plans=0, history=1, log="off", inj_state=2, inj_root=1))
+    out.append(cfgmod.make(n=2, head=0, manual=1, limit=255, plans=0, history=1, log="off"))        # the largest limit there is (the loop counter is 8 bits wide)
+    out.append(cfgmod.make(n=2, head=1, manual=0, limit=255, cap=2, plans=1, history=0, log="off", order=1))
+    return out
+
+def ping_pong(tier):
+    """two states whose guards bounce every request to each other for ever: every activation, immediate change, update() and react() must still come
+    back after exactly the configured number of rounds - for the smallest and the largest limits too"""
+    out = []
+    for c in cfgs_limit(tier, random.Random(0)):
+        if c["n"] < 2 or c["inj_state"]: continue
+        for cancel in (False, True):
+            lines = [cfgmod.cfg_line(c), "tab * S0 own entryGuard  : %schange 1" % ("cancel ; " if cancel else ""), "tab * S1 own entryGuard  : %schange 0" % ("cancel ; " if cancel else ""),
+                     "tab * S0 own exitGuard pend=1 : change 1", "op construct 0 0 00"] + (["op enter 0"] if c["manual"] else []) + \
+                    ["op immChange 0 1", "op update 0", "op react 0", "op change 0 0", "op update 0"] + (["op exit 0", "op enter 0", "op update 0"] if c["manual"] else [])
+            out.append((c, "\n".join(lines) + "\n", "template:ping-pong"))
     return out
 
 def cfgs_cycle(tier, rng):
@@ -210,7 +225,7 @@ def guard_trees(tier):
 # ---- hand-shaped histories for the plan properties: reports that stay latched across a plan step / across an exit
 def plan_templates(tier):
     out = []
-    for (n, pay, manual) in ((3, 0, 0), (8, 0, 0), (16, 2, 1), (9, 2, 0)) if tier == "quick" else ((3, 0, 0), (8, 0, 0), (16, 2, 1), (9, 2, 0), (24, 0, 0), (17, 0, 1), (32, 2, 0)):
+    for (n, pay, manual) in ((3, 0, 0), (8, 0, 0), (16, 2, 1), (9, 2, 0), (5, 0, 1)) if tier == "quick" else ((3, 0, 0), (8, 0, 0), (16, 2, 1), (9, 2, 0), (5, 0, 1), (24, 0, 0), (17, 0, 1), (32, 2, 0)):
         c = cfgmod.make(n=n, head=1, manual=manual, limit=2, cap=4, payload=pay, plans=1, serial=0, history=1, log="on")
         pre = [cfgmod.cfg_line(c), "op construct 0 1 00"] + (["op enter 0"] if manual else [])
         for (a1, a2) in ((1, 2), (n - 1, 1), (n // 2, n - 1)):
@@ -231,6 +246,11 @@ def plan_templates(tier):
             for veto in ("tab * S%d own entryGuard  : cancel" % a1, "tab * S0 own exitGuard  : cancel"):
                 out.append((c, "\n".join(pre[:1] + [veto] + pre[1:] + ["op plan.append 0 0 %d" % a1, "op succeed 0 0", "op update 0", "op update 0", "op update 0",
                                                                       "op plan.append 0 0 %d" % a2, "op update 0", "op succeed 0 0", "op update 0"]) + "\n", "template:vetoed-task-consumes-success"))
+            # a report for a state that is not active, made before exit(): gone after re-activation (manual machines; empty plan at the time of the exit)
+            if manual:
+                for rep in ("succeed", "fail"):
+                    out.append((c, "\n".join(pre + ["op %s 0 %d" % (rep, a1), "op exit 0", "op enter 0", "op plan.append 0 0 %d" % a1, "op plan.append 0 %d %d" % (a1, a2),
+                                                     "op succeed 0 0", "op update 0", "op update 0", "op update 0"]) + "\n", "template:report-dropped-by-exit-enter"))
             # the active state fails while a transition request is already waiting: planFailed() is still due in that very cycle
             out.append((c, "\n".join(pre + ["op plan.append 0 0 %d" % a1, "op plan.append 0 %d %d" % (a1, a2), "op change 0 %d" % a2, "op fail 0 0", "op update 0", "op update 0"]) + "\n",
                         "template:failure-with-request-pending"))
@@ -249,7 +269,7 @@ SPECS = {
     "C03": MachineSpec("C03", T.p_C03, P_REQ, cfgs_requests, lambda t: 100 if t == "quick" else 600,
                        lambda ls, c: has(ls, lambda l: l.kind == "did" and l.act[0] == "cancel" and l.res == "ok"), extra=guard_trees),
     "C04": MachineSpec("C04", T.p_C04, P_LIMIT, cfgs_limit, lambda t: 100 if t == "quick" else 500,
-                       lambda ls, c: max([sum(1 for _, e in cl.ev if e.kind == "cb" and e.meth == "exitGuard") for cl in monitors.calls(ls)] or [0]) >= c["limit"]),
+                       lambda ls, c: max([sum(1 for _, e in cl.ev if e.kind == "cb" and e.meth == "exitGuard") for cl in monitors.calls(ls)] or [0]) >= c["limit"], extra=ping_pong),
     "C05": MachineSpec("C05", T.p_C05, P_CYCLE, cfgs_cycle, lambda t: 80 if t == "quick" else 400,
                        lambda ls, c: has(ls, lambda l: l.kind == "did" and l.res == "ok") and has(ls, lambda l: l.kind == "cb" and l.meth in T.PHASE)),
     "C06": MachineSpec("C06", T.p_C06, P_VIEWS, cfgs_views, lambda t: 60 if t == "quick" else 300,
@@ -284,6 +304,14 @@ def check_C13(run):
     rng = run.rng; q = run.tier == "quick"
     lines = units.gen_bitstream(rng, 300 if q else 3000, True) + units.gen_bitwidth(rng, 200 if q else 5000)
     unitcheck.run(run, lines)
+    # "the bit width derived for a state count always suffices": real machines around the byte boundaries of the serialized form (64 states: 8 bits,
+    # 128 states: 9 bits), with and without the other features that share the template argument list, saved and loaded between instances
+    spec = MachineSpec("C13", T.p_C12, P_SERIAL.with_(n_ops=(8, 20)),
+                       lambda t, r: [cfgmod.make(n=64, head=0, manual=1, limit=1, cap=2, plans=1, serial=1, history=0, log="off"),
+                                     cfgmod.make(n=128, head=0, manual=0, limit=1, cap=3, plans=1, serial=1, history=1, log="off", order=1)] +
+                                    ([] if t == "quick" else [cfgmod.make(n=127, head=1, manual=1, limit=1, cap=2, plans=0, serial=1), cfgmod.make(n=255, head=0, manual=0, limit=1, cap=4, plans=1, serial=1)]),
+                       lambda t: 25 if t == "quick" else 100, lambda ls, c: has(ls, lambda l: l.kind == "api" and l.op == "loadfrom"), monitor_ids=["C12"])
+    engine.run_machine(run, spec)
     return dict(rule="operation lists for StreamBufferT/BitWriteStreamT/BitReadStreamT over every (offset mod 8, width) pair x 4 value patterns plus random "
                      "field sequences for 25 capacities up to 255 bits, and bitWidth() on powers of two +-1, 1..259 and random 32-bit values; a case is one "
                      "input line; distinct non-trivial = distinct model result blocks with more than three result lines",
@@ -543,6 +571,7 @@ def run_check(pid, tier, seed):
 
 # ---------------------------------------------------------------------------------------------- C18
 SAN = ["-fsanitize=address,undefined", "-fno-sanitize-recover=all", "-g", "-fno-omit-frame-pointer"]
+SAN_GXX = SAN + ["-fsanitize=bounds-strict"]     # g++ only: also check indices into arrays that are the last member of their class (ASan cannot see an overflow that stays inside the enclosing object)
 SAN_ENV = dict(ASAN_OPTIONS="detect_leaks=0:abort_on_error=0:exitcode=99", UBSAN_OPTIONS="print_stacktrace=1:halt_on_error=1:exitcode=98")
 
 def cfgs_san(tier, rng):
@@ -585,14 +614,14 @@ def check_C18(run):
     try:
         spec = MachineSpec("C18", T.p_all, P_SAN, cfgs_san, lambda t: 40 if t == "quick" else 200,
                            lambda ls, c: has(ls, lambda l: l.kind == "did" and l.res == "full") or has(ls, lambda l: l.kind == "api" and l.op in ("loadfrom", "copy", "plan.appendWith")),
-                           extra_flags=SAN, monitor_ids=["C18"], variants=("include", "development") if tier != "quick" else ("include",))
+                           extra_flags=SAN_GXX, monitor_ids=["C18"], variants=("include", "development") if tier != "quick" else ("include",))
         engine.run_machine(run, spec)
         if tier != "quick":
             spec2 = MachineSpec("C18", T.p_all, P_SAN, lambda t, r: cfgs_san("quick", r), lambda t: 60, spec.interesting, extra_flags=SAN, monitor_ids=["C18"], cxx="clang++", variants=("include",))
             engine.run_machine(run, spec2)
         rng = run.rng; q = tier == "quick"
         lines = units.gen_tasklist(rng, 150 if q else 1500) + units.gen_bitarray(rng, 100 if q else 1000) + units.gen_arrays(rng, 100 if q else 1000) + units.gen_bitstream(rng, 100 if q else 1000, not q)
-        unitcheck.run(run, lines, variants=("include",) if q else ("include", "development"), extra_flags=SAN, label="sanitized")
+        unitcheck.run(run, lines, variants=("include",) if q else ("include", "development"), extra_flags=SAN_GXX, label="sanitized")
     finally:
         for k, v in old_env.items():
             if v is None: os.environ.pop(k, None)
